@@ -36,6 +36,8 @@ def check(run, driver):
         metric = METRICS[it % 3]
         mix = rng.standard_normal((dx + dy + dz, dx + dy + dz)) * (it % 4 != 0) + np.eye(dx + dy + dz)
         W = rng.standard_normal((N, dx + dy + dz)) @ mix * float(10 ** rng.uniform(-2, 2))
+        if it % 5 == 4:     # data that are not mean-centred: large common offset relative to the spread
+            W = W + float(10 ** rng.uniform(4, 7)) * rng.choice([-1.0, 1.0], size=dx + dy + dz)
         X, Y, Z = W[:, :dx], W[:, dx:dx + dy], (W[:, dx + dy:] if dz else None)
         X0, Y0 = X.copy(), Y.copy()
         if Z is None:
@@ -56,6 +58,10 @@ def check(run, driver):
         W = rng.standard_normal((N, dx + dy + dz)) * float(10 ** rng.uniform(-0.5, 0.5))
         X, Y, Z = W[:, :dx], W[:, dx:dx + dy], W[:, dx + dy:]
         bw = ["silverman", "scott", float(rng.uniform(0.05, 2.0))][it % 3]
+        if it % 7 == 5:     # widely spread data with a large numeric bandwidth: very small densities
+            sc = float(10 ** rng.uniform(1.5, 3))
+            W = W * sc; X, Y, Z = W[:, :dx], W[:, dx:dx + dy], W[:, dx + dy:]
+            bw = float(sc * rng.uniform(0.2, 0.6))
         kind = ["entropy", "mi", "cmi"][(it // 3) % 3]
         if kind == "entropy":
             val = float(kde_entropy(X, bandwidth=bw, kernel="gaussian")); args = {"X": fmat(X)}
